@@ -267,7 +267,7 @@ fn main() {
         let txs = ledger(rec, None);
         let input_text = format!("{}# folder: {}", to_dsl(&txs), serde_json::to_string(&rec.files).unwrap_or_default());
         let mut push = |kind: &str, detail: String| {
-            let prop = if kind == "fx_cost_not_conserved" { "C03" } else { "C08" };
+            let prop = if kind == "fx_cost_not_conserved" { "C03" } else if kind == "fx_net_proceeds" { "C04" } else { "C08" };
             findings.push(Finding { prop: prop.into(), kind: kind.into(), case: case_no, detail, input: input_text.clone(), data: json!({"expected": rec.result}) });
         };
         cnt.inc("cases");
@@ -307,6 +307,12 @@ fn main() {
                 let held: Decimal = rep.holdings.iter().map(|h| h.total_cost).sum();
                 if (legs + held - spent).abs() > Decimal::new(1, 12) {
                     push("fx_cost_not_conserved", format!("legs + closing cost = {}, GBP expenditure (price and fees each at the rate of its own currency and month) = {spent}", legs + held));
+                }
+                // C04 in foreign currency: net proceeds = gross proceeds - the sale's fees, each valued at its own rate
+                let gross: Decimal = rep.tax_years.iter().flat_map(|y| y.disposals.iter()).map(|d| d.gross_proceeds).sum();
+                let net: Decimal = rep.tax_years.iter().flat_map(|y| y.disposals.iter()).map(|d| d.proceeds).sum();
+                if rep.tax_years.iter().any(|y| !y.disposals.is_empty()) && (gross - net - conv[5]).abs() > Decimal::new(1, 9) {
+                    push("fx_net_proceeds", format!("gross proceeds {gross} - net proceeds {net} = {}, but the sale's fees are worth {} GBP at the rate of their own currency and month", gross - net, conv[5]));
                 }
                 let twin = ledger(rec, Some(&conv));
                 let c3 = cfg.clone();
